@@ -188,6 +188,19 @@ SHAPES = {
     "hoisted-from-loop": "mon = SerialMonitor(9600)\nfor i in range(3):\n    last = i * 2\nmon.write(last)\n",
     "hoisted-in-main-loop": "mon = SerialMonitor(9600)\nk = 0\nwhile True:\n    k = k + 1\n    if k > 2:\n        tag = 'late'\n    else:\n        tag = 'early'\n    mon.write(tag)\n    sleep(5)\n",
     "hoisted-in-function": "mon = SerialMonitor(9600)\ndef pick(k):\n    if k > 0:\n        r = 2.5\n    else:\n        r = 0.5\n    return r\nv = pick(1)\nmon.write(v)\n",
+    "string-first-assigned-in-for": "mon = SerialMonitor(9600)\nfor i in range(2):\n    tag = 'n' + str(i)\nmon.write(tag)\n",
+    "float-first-assigned-in-for": "mon = SerialMonitor(9600)\nfor i in range(3):\n    half = i * 0.5\nmon.write(half)\n",
+    "list-first-assigned-in-for": "mon = SerialMonitor(9600)\nfor i in range(2):\n    pair = [i, i + 1]\nmon.write(pair[0])\n",
+    "string-first-assigned-in-for-in-main-loop": "mon = SerialMonitor(9600)\nwhile True:\n    for i in range(2):\n        tag = 'p' + str(i)\n    mon.write(tag)\n    sleep(5)\n",
+    "string-first-assigned-in-for-in-function": "mon = SerialMonitor(9600)\ndef last_tag(n):\n    for i in range(n):\n        t = 'q' + str(i)\n    return t\nr = last_tag(2)\nmon.write(r)\n",
+    "string-first-assigned-in-while": "mon = SerialMonitor(9600)\nk = 0\nwhile k < 2:\n    word = 'w' + str(k)\n    k = k + 1\nmon.write(word)\n",
+    "bool-first-assigned-in-for": "mon = SerialMonitor(9600)\nfor i in range(2):\n    flag = i > 0\nmon.write(flag)\n",
+    "user-variable-in-servo-bounds": "lo = 10\nhi = 170\narm = Servo(6, min_angle=lo, max_angle=hi)\nwhile True:\n    arm.write(90)\n    sleep(5)\n",
+    "user-variable-in-servo-pulses": "pmin = 600\npmax = 2300\narm = Servo(6, min_pulse_us=pmin, max_pulse_us=pmax)\nwhile True:\n    arm.write(90)\n    sleep(5)\n",
+    "user-variable-in-buzzer-default": "base = 330\nbz = Buzzer(8, default_frequency=base)\nwhile True:\n    bz.beep()\n    sleep(5)\n",
+    "user-variable-in-lcd-geometry": "width = 20\nheight = 4\npanel = LCD(rs=22, en=23, d4=24, d5=25, d6=26, d7=27, cols=width, rows=height)\npanel.write(0, 0, 'hi')\n",
+    "user-variable-in-lcd-i2c-address": "addr = 39\npanel = LCD(i2c_addr=addr)\npanel.write(0, 0, 'hi')\n",
+    "user-variable-as-pin": "p = 9\nled = Led(p)\nbtn = Button(p + 1)\nmon = SerialMonitor(9600)\nwhile True:\n    led.toggle()\n    mon.write(btn.is_pressed())\n    sleep(5)\n",
     "try-except": "mon = SerialMonitor(9600)\ntry:\n    x = 5\nexcept Exception:\n    x = 0\nmon.write(x)\n",
     "lists-and-len": "mon = SerialMonitor(9600)\nxs = [1, 2, 3]\nname = 'abc'\nwhile True:\n    xs.append(4)\n    mon.write(len(name))\n    mon.write(xs[0])\n    sleep(5)\n",
     "list-comprehension": "mon = SerialMonitor(9600)\nsq = [i * i for i in range(5)]\nmon.write(sq[2])\n",
